@@ -155,6 +155,51 @@ pub fn make_file(z: &ZoneSpec, version: u8, rng: &mut Rng) -> Option<Made> {
     if z.types.iter().any(|t| t.desig.is_none()) {
         classes.push("empty_designation");
     }
+    // unreferenced filler strings before / after the referenced designations: indices are single octets, the
+    // table itself may be longer than 256 octets and a designation may start at <= 255 and end after it
+    if rng.chance(1, 4) {
+        let max_idx = b.types.iter().map(|t| t.2 as usize).max().unwrap_or(0);
+        let room = 255 - max_idx;
+        let pre = match rng.below(3) {
+            0 => room.saturating_sub(rng.below(7) as usize),
+            1 => rng.below(room as u64 + 1) as usize,
+            _ => 0,
+        };
+        let post = match rng.below(3) {
+            0 => 0,
+            1 => rng.below(40) as usize,
+            _ => 200 + rng.below(400) as usize,
+        };
+        let filler = |n: usize| -> Vec<u8> {
+            // NUL-terminated filler strings: "PAD\0PAD\0...", the remainder as NULs
+            let mut v = vec![];
+            while v.len() + 4 <= n {
+                v.extend(b"PAD\0");
+            }
+            while v.len() < n {
+                v.push(0);
+            }
+            v
+        };
+        let mut chars = filler(pre);
+        chars.extend(&b.chars);
+        chars.extend(filler(post));
+        for t in b.types.iter_mut() {
+            t.2 = (t.2 as usize + pre) as u8;
+        }
+        b.chars = chars;
+        if b.chars.len() > 256 {
+            classes.push("designation_table_longer_than_256");
+            let crosses = b.types.iter().any(|t| {
+                let i = t.2 as usize;
+                let end = i + b.chars[i..].iter().position(|c| *c == 0).unwrap_or(0);
+                end >= 256
+            });
+            if crosses {
+                classes.push("designation_ends_after_octet_255");
+            }
+        }
+    }
     // indicator vectors
     match rng.below(4) {
         0 => {}
@@ -394,6 +439,8 @@ pub fn run(ctx: &Ctx) -> Report {
         "isstd_only",
         "isstd_and_isut",
         "overlapping_designations",
+        "designation_table_longer_than_256",
+        "designation_ends_after_octet_255",
         "empty_designation",
         "extension_used_in_v3_footer",
         "extension_footer_refused_in_v2",
